@@ -112,3 +112,131 @@ Definition probe_action (k st : N) : clist :=
 Definition trap_clist (k st : N) : clist :=
   LCons (AndOr (Pipe false (CCons (CTrapExit (probe_action k st)) CNil)) RNil) LNil.
 Definition trap_line (k st : N) : line := LCmd (trap_clist k st).
+
+(* ------------------------------------------------------------------ *)
+(* Extension: the consequence of each further category of shell error  *)
+(* at each position, written as a table + a walk over the positions    *)
+(* (independent of the interpreter)                                    *)
+(* ------------------------------------------------------------------ *)
+
+(* XCU 2.8.1 "Consequences of Shell Errors" (non-interactive shell), as
+   yash-rs implements it (docs/src/termination.md):
+   [XFatal st]: the current shell execution environment exits with status st;
+   [XSoft st]:  the command completes with status st and the script goes on
+                (unless errexit applies to it). *)
+Inductive xclass := XFatal (st : N) | XSoft (st : N).
+
+Definition xerr_class (e : xerr) (viac : bool) : xclass :=
+  match e with
+  (* errors of special built-ins: "shall exit"; through `command`: "shall not exit" *)
+  | XShiftTooMany | XUnsetReadonly | XReadonlyReassign | XExportReadonly
+  | XExportSubstReadonly | XDotNotFound | XPrefixShiftTooMany => if viac then XSoft 1 else XFatal 1
+  | XShiftOperand | XSetBadOption | XTimesOperand | XReturnOperand | XBreakOperand =>
+      if viac then XSoft 2 else XFatal 2
+  (* exec: "if command is not found, a non-interactive shell exits with 127";
+     yash-rs does so through `command` as well *)
+  | XExecNotFound | XExecNotFoundPath => XFatal 127
+  (* shell language syntax error: "shall exit", whatever runs the parser *)
+  | XEvalSyntax | XDotSyntax => XFatal 2
+  (* the error of the special built-in inside eval's operand *)
+  | XEvalSpecial | XDotSpecial => XFatal 1
+  (* trap: "invalid signal names shall not be considered an error and shall
+     not cause the shell to abort"; non-zero status *)
+  | XTrapBadSignal => XSoft 1
+  (* the status of a command substitution in an operand of export is lost *)
+  | XExportSubstFails => XSoft 0
+  end.
+
+(* positions in which POSIX `set -e` is ignored, for everything inside *)
+Definition pos_exempt (p : position) : bool :=
+  match p with
+  | PIfCond | PAndLeft | POrLeft | PNeg | PFunInCond | PWhileCond | PUntilCond => true
+  | _ => false
+  end.
+
+(* positions that are a shell execution environment of their own: [Some b],
+   b = the status with which that environment ends is the position's status *)
+Definition pos_isolating (p : position) : option bool :=
+  match p with
+  | PSubshell | PSubst | PPipeLast => Some true
+  | PSubstIgn | PPipeFirst => Some false
+  | _ => None
+  end.
+
+(* the status of the position when its inside went on and ended with [st] *)
+Definition pos_status (p : position) (st : N) : N :=
+  match p with
+  | PBrace | PFun | PForBody | PAndLeft | PSubshell | PSubst | PPipeLast => st
+  | PNeg => if N.eqb st 0 then 1 else 0
+  | PIfCond | POrLeft | PFunInCond | PSubstIgn | PWhileCond | PUntilCond | PPipeFirst => 0
+  end%N.
+
+(* positions that are themselves a simple command, subshell or multi-command
+   pipeline, to whose failure `set -e` applies *)
+Definition pos_checked (p : position) : bool :=
+  match p with
+  | PFun | PSubshell | PSubst | PSubstIgn | PPipeLast | PPipeFirst => true
+  | _ => false
+  end.
+
+Inductive xout := XAbort (st : N) | XGo (st : N).
+
+Definition xcheck (e_on ex : bool) (st : N) : xout :=
+  if negb (N.eqb st 0) && e_on && negb ex then XAbort st else XGo st.
+
+(* [ex]: -e is ignored here (some enclosing position is exempt).  Returns what
+   becomes of the environment that contains the outermost position. *)
+Fixpoint xwalk (e_on ex : bool) (ps : list position) (v : xclass) : xout :=
+  match ps with
+  | [] =>
+      match v with
+      | XFatal st => XAbort st
+      | XSoft st => match xcheck e_on ex st with
+                    | XAbort a => XAbort a
+                    | XGo _ => XGo 0        (* `probe 2` ran *)
+                    end
+      end
+  | p :: ps' =>
+      match xwalk e_on (ex || pos_exempt p) ps' v with
+      | XAbort st =>
+          match pos_isolating p with
+          | None => XAbort st
+          | Some propagates => xcheck e_on ex (if propagates then st else 0%N)
+          end
+      | XGo st =>
+          if pos_checked p then xcheck e_on ex (pos_status p st) else XGo (pos_status p st)
+      end
+  end.
+
+(* did `probe 2` (right after the victim, same environment) run? *)
+Definition xinner_goes (e_on : bool) (ps : list position) (v : xclass) : bool :=
+  match v with
+  | XFatal _ => false
+  | XSoft st =>
+      match xcheck e_on (existsb pos_exempt ps) st with XAbort _ => false | XGo _ => true end
+  end.
+
+Definition xclass_status (v : xclass) : N := match v with XFatal st | XSoft st => st end.
+
+Definition has_item (k st : N) (t : list (N * N)) : bool :=
+  existsb (fun x => N.eqb (fst x) k && N.eqb (snd x) st) t.
+Definition has_key (k : N) (t : list (N * N)) : bool := existsb (fun x => N.eqb (fst x) k) t.
+
+(* The oracle: what the table says about an observation of [xscript x]. *)
+Definition xoracle (x : xspec) (o : observation) : bool :=
+  let v := xerr_class (x_err x) (x_viac x) in
+  let top := xwalk (x_errexit x) false (x_pos x) v in
+  let final := match top with XAbort st => st | XGo _ => 0%N end in
+  (* the commands before the victim ran *)
+  has_item 1 0 (fst o)
+  (* `probe 2` ran exactly if the victim did not end its environment, and saw its status *)
+  && Bool.eqb (has_key 2 (fst o)) (xinner_goes (x_errexit x) (x_pos x) v)
+  && (negb (has_key 2 (fst o)) || has_item 2 (xclass_status v) (fst o))
+  (* `probe 3` ran exactly if the script was not aborted *)
+  && Bool.eqb (has_key 3 (fst o)) (match top with XGo _ => true | XAbort _ => false end)
+  (* exit status: that of the failing command / the error status *)
+  && N.eqb (snd o) final
+  (* the EXIT trap ran exactly once, with `$?` = the exit status *)
+  && (if x_trap x
+      then Nat.eqb (count_key xtrap_key (fst o)) 1 && has_item xtrap_key final (fst o)
+      else negb (has_key xtrap_key (fst o))).
